@@ -1331,4 +1331,181 @@ theorem C_addbrackets (m : Mem) (b : Nat) (s : List UInt8) (h : MemBytes m b (s 
   have := addbrackets_exec m b s h hs hsmall fuel
   rwa [addSpec_eq] at this
 
+
+
+/-- what `replace_str` leaves: the first occurrence of `o` replaced by `r`, when `r` is not longer than `o` -/
+def replaceSpec (s o r : List UInt8) : List UInt8 :=
+  if o.length < r.length then s
+  else match findSub o s 0 with
+    | none => s
+    | some i => s.take i ++ r ++ s.drop (i + o.length)
+
+theorem drop_take_mid {α} (A T : List α) (z : α) (n : Nat) (h : A.length = n) :
+    ((A ++ T ++ [z]).drop n).take (T.length + 1) = T ++ [z] := by
+  subst h
+  simp only [List.append_assoc, List.drop_left']
+  rw [show T.length + 1 = (T ++ [z]).length by simp, List.take_length]
+
+theorem take_front {α} (A F T : List α) (z : α) (n : Nat) (h : A.length = n) :
+    (A ++ F ++ T ++ [z]).take n = A := by
+  subst h; simp [List.append_assoc]
+
+theorem replace_str_exec (m : Mem) (b0 b1 b2 : Nat) (s o r : List UInt8)
+    (h0 : MemBytes m b0 (s ++ [0])) (h1 : MemBytes m b1 (o ++ [0])) (h2 : MemBytes m b2 (r ++ [0]))
+    (hs : (0 : UInt8) ∉ s) (ho : (0 : UInt8) ∉ o) (hr : (0 : UInt8) ∉ r)
+    (d01 : b0 ≠ b1) (d02 : b0 ≠ b2)
+    (hsmall : (s.length : Int) + 1 < 18446744073709551616 ∧ (o.length : Int) < 18446744073709551616 ∧ (r.length : Int) < 18446744073709551616)
+    (fuel : Nat) :
+    ∃ m' loc', exec fuel LeafFns.replace_str.body { mem := m, loc := [.ptr b0 0, .ptr b1 0, .ptr b2 0, .undef, .undef, .undef] } =
+        .ret (.ptr b0 0) { mem := m', loc := loc' } ∧
+      m'.cstr b0 0 = .ok (replaceSpec s o r) ∧ m'.length = m.length ∧ ∀ b', b' ≠ b0 → m'[b']? = m[b']? := by
+  have hstr0 := h0.cstr hs 0 (Nat.zero_le _)
+  have hstr1 := h1.cstr ho 0 (Nat.zero_le _)
+  have hstr2 := h2.cstr hr 0 (Nat.zero_le _)
+  simp only [Int.natCast_zero, List.drop_zero] at hstr0 hstr1 hstr2
+  have wo : wrapTo .u64 (o.length : Int) = o.length := wrapTo_u64_small _ (by omega) (by omega)
+  have wr : wrapTo .u64 (r.length : Int) = r.length := wrapTo_u64_small _ (by omega) (by omega)
+  have hpre : ∀ rest : Stmt, exec fuel
+      (.seq (.expr (.assign (.var 4) (.call "strlen" (.cons (.load (.var 1) .ptr) .nil)) .u64))
+        (.seq (.expr (.assign (.var 5) (.call "strlen" (.cons (.load (.var 2) .ptr) .nil)) .u64)) rest))
+      { mem := m, loc := [.ptr b0 0, .ptr b1 0, .ptr b2 0, .undef, .undef, .undef] } =
+      exec fuel rest { mem := m, loc := [.ptr b0 0, .ptr b1 0, .ptr b2 0, .undef, .int (o.length : Nat), .int (r.length : Nat)] } := by
+    intro rest
+    simp [exec, evalE, evalL, evalArgs, readPlace, writePlace, builtin, hstr1, hstr2, bind, Except.bind, convert, wo, wr]
+  simp only [LeafFns.replace_str]
+  rw [hpre]
+  by_cases hlen : o.length < r.length
+  · -- the replacement is longer: nothing happens
+    refine ⟨m, [.ptr b0 0, .ptr b1 0, .ptr b2 0, .undef, .int (o.length : Nat), .int (r.length : Nat)], ?_, ?_, rfl, fun _ _ => rfl⟩
+    · have : (o.length : Int) < (r.length : Int) := by omega
+      simp [exec, testOf, evalE, evalL, readPlace, binop, cmpInt, boolVal, truth, bind, Except.bind, this]
+    · simp [replaceSpec, hlen, hstr0]
+  · cases hf : findSub o s 0 with
+    | none =>
+      refine ⟨m, [.ptr b0 0, .ptr b1 0, .ptr b2 0, .null, .int (o.length : Nat), .int (r.length : Nat)], ?_, ?_, rfl, fun _ _ => rfl⟩
+      · have : ¬ (o.length : Int) < (r.length : Int) := by omega
+        simp [exec, testOf, evalE, evalL, evalArgs, readPlace, writePlace, builtin, hstr0, hstr1, hf, binop, cmpInt, boolVal, truth, unop, convert,
+          bind, Except.bind, Except.map, this]
+      · simp [replaceSpec, hlen, hf, hstr0]
+    | some i =>
+      obtain ⟨_, hbnd⟩ := findSub_bound o s 0 i hf
+      simp only [Nat.sub_zero] at hbnd
+      have hrl : r.length ≤ o.length := by omega
+      obtain ⟨blk, c1, c2, _, c3⟩ := h0.blk
+      have hcl : blk.cells.length = s.length + 1 := by rw [c3]; simp
+      -- the test lets us pass, `p` points at the occurrence
+      have hcond : exec fuel (.ite (.lor (.bin .gt (.load (.var 5) .u64) (.load (.var 4) .u64) .i32)
+          (.un .lnot (.assign (.var 3) (.call "strstr" (.cons (.load (.var 0) .ptr) (.cons (.load (.var 1) .ptr) .nil))) .ptr) .i32))
+          (.ret (some (.load (.var 0) .ptr))) .skip)
+          { mem := m, loc := [.ptr b0 0, .ptr b1 0, .ptr b2 0, .undef, .int (o.length : Nat), .int (r.length : Nat)] } =
+          .normal { mem := m, loc := [.ptr b0 0, .ptr b1 0, .ptr b2 0, .ptr b0 (i : Nat), .int (o.length : Nat), .int (r.length : Nat)] } := by
+        have : ¬ (o.length : Int) < (r.length : Int) := by omega
+        simp [exec, testOf, evalE, evalL, evalArgs, readPlace, writePlace, builtin, hstr0, hstr1, hf, binop, cmpInt, boolVal, truth, unop, convert,
+          bind, Except.bind, Except.map, this]
+      -- memcpy(p, rep, rep_len)
+      have hld := h2.loadBytes r.length 0 (by simp)
+      simp only [Int.natCast_zero, List.drop_zero, List.take_left'] at hld
+      have hld' : m.loadBytes b2 0 r.length = .ok r := by simpa using hld
+      obtain ⟨m1, hst1, hm1, hl1, ho1⟩ := h0.storeBytes_at r i (by simp; omega)
+      have hcpy : exec fuel (.expr (.call "memcpy" (.cons (.load (.var 3) .ptr) (.cons (.load (.var 2) .ptr) (.cons (.load (.var 5) .u64) .nil)))))
+          { mem := m, loc := [.ptr b0 0, .ptr b1 0, .ptr b2 0, .ptr b0 (i : Nat), .int (o.length : Nat), .int (r.length : Nat)] } =
+          .normal { mem := m1, loc := [.ptr b0 0, .ptr b1 0, .ptr b2 0, .ptr b0 (i : Nat), .int (o.length : Nat), .int (r.length : Nat)] } := by
+        simp [exec, evalE, evalL, evalArgs, readPlace, builtin, hld', hst1, bind, Except.bind]
+      -- the cells after the copy, seen as: [0, i+|r|) ++ filler ++ tail ++ NUL
+      have hcells1 : (s ++ [0]).take i ++ r ++ (s ++ [0]).drop (i + r.length) =
+          (s.take i ++ r ++ (s.drop (i + r.length)).take (o.length - r.length)) ++ s.drop (i + o.length) ++ 0 :: [] := by
+        have e1 : (s ++ [0]).take i = s.take i := List.take_append_of_le_length (by omega)
+        have e2 : (s ++ [0]).drop (i + r.length) = s.drop (i + r.length) ++ [0] := List.drop_append_of_le_length (by omega)
+        have e3 : s.drop (i + r.length) = (s.drop (i + r.length)).take (o.length - r.length) ++ s.drop (i + o.length) := by
+          conv => lhs; rw [← List.take_append_drop (o.length - r.length) (s.drop (i + r.length))]
+          rw [List.drop_drop]
+          congr 2; omega
+        rw [e1, e2]
+        conv => lhs; rw [e3]
+        simp
+      rw [hcells1] at hm1
+      have hplen : (s.take i ++ r ++ (s.drop (i + r.length)).take (o.length - r.length)).length = i + o.length := by
+        simp; omega
+      have htail0 : (0 : UInt8) ∉ s.drop (i + o.length) := fun hm0 => hs (List.mem_of_mem_drop hm0)
+      have hstrt := hm1.cstr_at htail0
+      rw [hplen] at hstrt
+      -- memmove(p + rep_len, p + orig_len, strlen(p + orig_len) + 1)
+      obtain ⟨blk1, e1, e2, _, e3⟩ := hm1.blk
+      have hcl1 : blk1.cells.length = s.length + 1 := by rw [e3]; simp; omega
+      have hsrc := hm1.loadBytes ((s.drop (i + o.length)).length + 1) (i + o.length) (by simp; omega)
+      have hsrcv : ((s.take i ++ r ++ (s.drop (i + r.length)).take (o.length - r.length) ++ s.drop (i + o.length) ++ 0 :: []).drop (i + o.length)).take
+          ((s.drop (i + o.length)).length + 1) = s.drop (i + o.length) ++ [0] := by
+        exact drop_take_mid _ _ _ _ hplen
+      rw [hsrcv] at hsrc
+      obtain ⟨m2, hst2, hm2, hl2, ho2⟩ := hm1.storeBytes_at (s.drop (i + o.length) ++ [0]) (i + r.length) (by simp; omega)
+      have wt : wrapTo .u64 (((s.length - (i + o.length) : Nat) : Int) + 1) = ((s.length - (i + o.length) : Nat) : Int) + 1 :=
+        wrapTo_u64_small _ (by omega) (by omega)
+      have htl : (s.drop (i + o.length)).length = s.length - (i + o.length) := List.length_drop
+      rw [htl] at hsrc
+      have w1 : wrapTo .u64 1 = 1 := wrapTo_u64_small 1 (by decide) (by decide)
+      have hmove : exec fuel (.expr (.call "memmove" (.cons (.bin .add (.load (.var 3) .ptr) (.load (.var 5) .u64) .ptr)
+          (.cons (.bin .add (.load (.var 3) .ptr) (.load (.var 4) .u64) .ptr)
+            (.cons (.bin .add (.call "strlen" (.cons (.bin .add (.load (.var 3) .ptr) (.load (.var 4) .u64) .ptr) .nil)) (.cast .u64 (.lit 1 .i32)) .u64) .nil)))))
+          { mem := m1, loc := [.ptr b0 0, .ptr b1 0, .ptr b2 0, .ptr b0 (i : Nat), .int (o.length : Nat), .int (r.length : Nat)] } =
+          .normal { mem := m2, loc := [.ptr b0 0, .ptr b1 0, .ptr b2 0, .ptr b0 (i : Nat), .int (o.length : Nat), .int (r.length : Nat)] } := by
+        have a0 : (0 : Int) ≤ (i : Int) + (r.length : Int) := by omega
+        have a1 : (i : Int) + (r.length : Int) ≤ (blk1.cells.length : Int) := by rw [hcl1]; omega
+        have a2 : (0 : Int) ≤ (i : Int) + (o.length : Int) := by omega
+        have a3 : (i : Int) + (o.length : Int) ≤ (blk1.cells.length : Int) := by rw [hcl1]; omega
+        simp only [Int.natCast_add] at hstrt hsrc hst2 wt
+        simp [exec, evalE, evalL, evalArgs, readPlace, builtin, binop, ptrAdd, Mem.block, e1, e2, a0, a1, a2, a3, hstrt, cmpInt, arith, Ty.signed,
+          convert, w1, wt, hsrc, hst2, Int.toNat_natCast_add_one, bind, Except.bind]
+      refine ⟨m2, [.ptr b0 0, .ptr b1 0, .ptr b2 0, .ptr b0 (i : Nat), .int (o.length : Nat), .int (r.length : Nat)], ?_, ?_, hl2.trans hl1,
+        fun b' hb' => by rw [ho2 b' hb', ho1 b' hb']⟩
+      · rw [exec_seq_normal hcond, exec_seq_normal hcpy, exec_seq_normal hmove]
+        simp [exec, evalE, evalL, readPlace, bind, Except.bind]
+      · -- the string that is left
+        have hfin : (s.take i ++ r ++ (s.drop (i + r.length)).take (o.length - r.length) ++ s.drop (i + o.length) ++ 0 :: []).take (i + r.length) ++
+            (s.drop (i + o.length) ++ [0]) ++
+            (s.take i ++ r ++ (s.drop (i + r.length)).take (o.length - r.length) ++ s.drop (i + o.length) ++ 0 :: []).drop (i + r.length + (s.drop (i + o.length) ++ [0]).length) =
+            (s.take i ++ r ++ s.drop (i + o.length)) ++ 0 :: ((s.take i ++ r ++ (s.drop (i + r.length)).take (o.length - r.length) ++ s.drop (i + o.length) ++ 0 :: []).drop (i + r.length + (s.drop (i + o.length) ++ [0]).length)) := by
+          have hp2 : (s.take i ++ r).length = i + r.length := by simp; omega
+          have : (s.take i ++ r ++ (s.drop (i + r.length)).take (o.length - r.length) ++ s.drop (i + o.length) ++ 0 :: []).take (i + r.length) = s.take i ++ r := by
+            exact take_front _ _ _ _ _ hp2
+          rw [this]
+          simp
+        rw [hfin] at hm2
+        have hnz : (0 : UInt8) ∉ s.take i ++ r ++ s.drop (i + o.length) := by
+          intro hm0
+          rcases List.mem_append.1 hm0 with h | h
+          · rcases List.mem_append.1 h with h | h
+            · exact hs (List.mem_of_mem_take h)
+            · exact hr h
+          · exact hs (List.mem_of_mem_drop h)
+        rw [hm2.cstr0 hnz]
+        simp [replaceSpec, hlen, hf]
+
+theorem replaceSpec_length (s o r : List UInt8) : (replaceSpec s o r).length ≤ s.length := by
+  unfold replaceSpec
+  split
+  · exact Nat.le_refl _
+  · split
+    · exact Nat.le_refl _
+    · rename_i i hf
+      obtain ⟨_, hb⟩ := findSub_bound o s 0 i hf
+      simp only [Nat.sub_zero] at hb
+      simp only [List.length_append, List.length_take, List.length_drop]
+      omega
+
+/-- `replace_str` (util/econftool.c): for every source, search and replacement string the function runs without a fault – every
+    access of `memcpy`, `memmove`, `strstr` and `strlen` stays inside the three strings –, returns its first argument, leaves every
+    other block alone, and the string left in place is `replaceSpec`, which is never longer than the source. -/
+theorem C_replace_str (m : Mem) (b0 b1 b2 : Nat) (s o r : List UInt8)
+    (h0 : MemBytes m b0 (s ++ [0])) (h1 : MemBytes m b1 (o ++ [0])) (h2 : MemBytes m b2 (r ++ [0]))
+    (hs : (0 : UInt8) ∉ s) (ho : (0 : UInt8) ∉ o) (hr : (0 : UInt8) ∉ r) (d01 : b0 ≠ b1) (d02 : b0 ≠ b2)
+    (hsmall : (s.length : Int) + 1 < 18446744073709551616 ∧ (o.length : Int) < 18446744073709551616 ∧ (r.length : Int) < 18446744073709551616)
+    (fuel : Nat) :
+    ∃ m' loc' res, exec fuel LeafFns.replace_str.body { mem := m, loc := [.ptr b0 0, .ptr b1 0, .ptr b2 0, .undef, .undef, .undef] } =
+        .ret (.ptr b0 0) { mem := m', loc := loc' } ∧
+      m'.cstr b0 0 = .ok res ∧ res = replaceSpec s o r ∧ res.length ≤ s.length ∧ ∀ b', b' ≠ b0 → m'[b']? = m[b']? := by
+  obtain ⟨m', loc', h, hc, _, hf⟩ := replace_str_exec m b0 b1 b2 s o r h0 h1 h2 hs ho hr d01 d02 hsmall fuel
+  exact ⟨m', loc', _, h, hc, rfl, replaceSpec_length s o r, hf⟩
+
+example : replaceSpec [97, 92, 116, 98] [92, 116] [9] = [97, 9, 98] := by decide
+
 end Leaf
